@@ -155,7 +155,7 @@ def diversify(ctx, jobs):
 def run(ctx):
     ctx.mc("MC_Components.tla", "MC_Components.cfg" if ctx.quick else "MC_Components_thorough.cfg")
     jobs = diversify(ctx, build_jobs(ctx))
-    recs = pool.run_jobs(__name__, jobs)
+    recs = pool.run_jobs(__name__, jobs, reuse=True, abort=True)
     verdicts = ctx.validate("Trace_Components.tla", "Trace_Components.cfg", recs)
     ctx.judge(jobs, recs, verdicts)
     # non-trivial: distinct inputs with >= 2 components of which one has >= 2 nodes, or asymmetric
